@@ -695,7 +695,7 @@ def sample_points(symbols, hyps, n, seed=0, witness=None, tries=4000, ranges=Non
             for a_ in h_.atoms(sp.Number):
                 try:
                     av = abs(float(a_))
-                    if av != 0 and (av < 1e-2 or av > 1e2) and av < 1e30 and av > 1e-30: consts.add(sp.nsimplify(abs(a_), rational=True))
+                    if av != 0 and (av < 1e-2 or av > 1e2) and av < 1e30 and av > 1e-30: consts.add(sp.Rational('%.6g' % av))
                 except Exception: pass
     consts = sorted(consts)[:8]
     while len(pts) < n and k < tries and time.time() < t_end:
@@ -726,7 +726,7 @@ def sample_points(symbols, hyps, n, seed=0, witness=None, tries=4000, ranges=Non
                 slack = sp.Rational(rnd.randint(1, 3000), 1000)
                 v = bq + slack + sp.Rational(1, 1000) if op in ('>', '>=') else bq - slack
                 if op in ('<', '<=') and (s.is_positive or s.is_nonnegative) and bv > 0 and (v <= 0 or k % 2):
-                    v = sp.nsimplify(bv * sp.Rational(rnd.randint(50, 950), 1000), rational=True)      # positive symbol under a small positive bound: multiplicative placement
+                    v = sp.Rational('%.4g' % (float(bv) * rnd.randint(50, 950) / 1000.0))      # positive symbol under a (possibly small) positive bound: multiplicative placement, 4 significant digits
                 if s.is_positive and v <= 0: ok = False; break
                 if s.is_negative and v >= 0: ok = False; break
                 if s.is_nonnegative and v < 0: ok = False; break
